@@ -7,7 +7,8 @@
 From Coq Require Import NArith ZArith List.
 From Blue Require Import Gen.Const_Table Table.Model Table.ModelBloom Table.ModelSst Table.Ref
   Table.BlockBase Table.BuildProofs Table.CursorProofs Table.DivideProofs Table.BloomProofs
-  Table.SstCursorProofs Table.BuildSstProofs Table.SstProofs Table.MultiProofs Table.ModelWire Table.WireProofs.
+  Table.SstCursorProofs Table.BuildSstProofs Table.SstProofs Table.MultiProofs Table.AcceptProofs
+  Table.ModelWire Table.WireProofs.
 Import ListNotations.
 
 Definition size_ok (enc_size : bentry -> N) : Prop := forall e, (0 < enc_size e)%N.
@@ -155,6 +156,20 @@ Proof.
     + contradiction.
     + exact (bb_add_no_panic enc_size Hb b e A).
 Qed.
+
+(* ... and likewise an SstBuilder, in every state it can reach: put/del succeed EXACTLY on the
+   entries that pass the pre-checks (block flushes, dividing keys, index puts never fail), so every
+   rejection is a pre-check failure and leaves the builder and the file untouched.  Hypotheses
+   on the external sizes: a record is far smaller than 4 GiB - 1 GiB, an encoded BlockMetadata
+   fits a value. *)
+Theorem C10_sst_builder_accepts_iff : forall enc_size meta_enc sip, size_ok enc_size ->
+  (forall be, (enc_size be <= U32_MAX - TABLE_FULL_SIZE)%N) ->
+  (forall s l, (len (meta_enc s l) <= MAX_VALUE_LEN)%N) ->
+  forall o es b, keys_ok es -> sb_add_all enc_size meta_enc sip (sb_new o) es = Ok b ->
+  forall e, bytes_ok (e_key e) ->
+  ((exists b1, sb_add enc_size meta_enc sip b e = Ok b1) <->
+   put_ok (sb_last_key b) (sb_last_ts b) (sb_approx_size enc_size b) e).
+Proof. exact sst_builder_accepts_iff. Qed.
 
 (* SstMultiBuilder: however the accepted input is cut into tables (target file size, split hints,
    table full), the input as a whole is strictly ordered, every table sealed is a well-formed
